@@ -57,6 +57,10 @@ RULES = {
     "C07-V1": "vertex degree counts every edge once at both of its ends; total_area sums the areas of all the faces",
     "C07-O1": "face normals are oriented by the order of the vertices of the face: normalised cross(e1, e2) with (e1, e2) a positively oriented "
               "pair of edge vectors of the face",
+    "C07-G2": "the first three vertices of a face (`F[:3]`) stand for the whole face only up to direction: a quantity computed from them is "
+              "normalised before it is stored / accumulated, unless the faces are known to be triangles (is_triangular / len(F) == 3)",
+    "C07-Q1": "an attribute stored on the mesh (persistent) is filled over all the elements of its container: a function of the attribute modules "
+              "never asks another one for a persistent attribute restricted to a subset of the elements (later queries reuse the cached attribute)",
     "C07-X1": "closed-form primitives of geometry.py are the textbook polynomials (cross, det_2x2, det_3x3, quad_area, aspect_ratio, "
               "triangle_area) and angle primitives take both vectors from the central point",
 }
@@ -67,7 +71,7 @@ def run(ctx):
              ("C07-G1", g1_triangular_gate), ("C07-C1", c1_corner_centre), ("C07-W1", w1_interpolation), ("C07-M1", m1_mean_divisor),
              ("C07-M2", m2_barycentres), ("C07-A1", a1_area_volume), ("C07-X1", x1_primitives), ("C07-E1", e1_edge_sides),
              ("C07-E2", e2_absolute_thresholds), ("C07-Z1", z1_reset_before_accumulate), ("C07-P1", p1_points),
-             ("C07-I1", i1_attribute_iteration), ("C07-T1", t1_translation), ("C07-B1", b1_angle_defect_border), ("C07-V1", v1_counts), ("C07-O1", o1_normal_orientation)]
+             ("C07-I1", i1_attribute_iteration), ("C07-T1", t1_translation), ("C07-B1", b1_angle_defect_border), ("C07-V1", v1_counts), ("C07-O1", o1_normal_orientation), ("C07-G2", g2_truncated_face), ("C07-Q1", q1_partial_cache)]
     run_steps(ctx, steps, "attributes.attr_faces")
 
 
@@ -1960,7 +1964,8 @@ def threshold_rule(ctx, rule, modules):
         q = cfn.name
         how = f" (reached from {via} with arguments built from mesh.vertices)" if via else ""
         ctx.check(deg == 0, rule, ctx.site(cm, cfn, node),
-                  f"{q}: `{au.src(node)}` compares `{au.src(expr)}` (a length to the power {deg:g}) with the absolute constant {lit:g}{how}",
+                  f"{q}: `{au.src(node)}` {'clamps' if isinstance(node, ast.Call) else 'compares'} `{au.src(expr)}` (a length to the power {deg:g}) "
+                  f"{'by' if isinstance(node, ast.Call) else 'with'} the absolute constant {lit:g}{how}",
                   "the outcome of the test changes under a uniform scaling of the mesh: well-shaped elements of a mesh given in small "
                   "(or large) units are treated differently, so the quantity neither scales with the right power nor stays invariant",
                   note=f"{q}: `{au.src(node)}` is dimensionless")
@@ -2067,6 +2072,26 @@ def _reset_before(V, st, base, key):
     return None
 
 
+def _may_reach(s, st):
+    """can the binding statement s be the one in force at statement st?  No when the two sit in the two branches of one `if`, or when s comes
+    later and no loop contains both"""
+    anc_s = [s] + list(au.ancestors(s))
+    anc_t = [st] + list(au.ancestors(st))
+    ids_t = {id(x): i for i, x in enumerate(anc_t)}
+    for i, x in enumerate(anc_s):
+        if id(x) in ids_t:
+            j = ids_t[id(x)]
+            if i == 0 or j == 0:
+                return True
+            cs, ct = anc_s[i - 1], anc_t[j - 1]
+            if isinstance(x, ast.If) and ((any(cs is y for y in x.body) and any(ct is y for y in x.orelse)) or (any(cs is y for y in x.orelse) and any(ct is y for y in x.body))):
+                return False
+            if getattr(cs, "lineno", 0) > getattr(ct, "lineno", 0) and not any(isinstance(a, (ast.For, ast.While)) for a in anc_s[i:] if not isinstance(a, (ast.FunctionDef,))):
+                return False
+            return True
+    return True
+
+
 def z1_reset_before_accumulate(ctx):
     n = 0
     for modname in ALL_ATTR:
@@ -2081,8 +2106,9 @@ def z1_reset_before_accumulate(ctx):
                 base, key = r
                 done.add(base)
                 site = ctx.site(modname, fn, st)
-                binds = [v for s in au.stmts(V.body) for nm, v in sym.split_assign(s) if nm == base]
-                other = [s for s in au.stmts(V.body) if sym.Bindings._assigns(s, base, deep=False) and not any(nm == base for nm, _ in sym.split_assign(s))]
+                binds = [v for s in au.stmts(V.body) for nm, v in sym.split_assign(s) if nm == base and _may_reach(s, st)]
+                other = [s for s in au.stmts(V.body) if sym.Bindings._assigns(s, base, deep=False) and not any(nm == base for nm, _ in sym.split_assign(s))
+                         and _may_reach(s, st)]
                 origins = [_origin(v, params) for v in binds]
                 if base in params and not binds:
                     origins = [("param", base)]
@@ -2458,6 +2484,153 @@ def o1_normal_orientation(ctx):
         problems.append("the cross product is not normalised")
     ctx.check(not problems, "C07-O1", ctx.site(mod, fn, st), "face_normals: " + "; ".join(problems),
               "the unit normal of a face is cross(B - A, C - A) / |..| for its vertices A, B, C in order (right-hand rule)", note="normal = normalised cross of positively oriented edges")
+
+
+# ----------------------------------------------------------------------- C07-G2
+DIRECTION_ONLY = {"normalized", "face_basis", "sign", "sign0", "angle_3pts", "cotan", "signed_angle_2vec3D", "signed_angle_3pts", "angle_2vec3D", "angle_2vec2D",
+                  "atan2", "arctan2", "aspect_ratio", "isinstance", "len"}
+
+
+def g2_truncated_face(ctx):
+    n = 0
+    for modname in ATTR_MODS:
+        m = ctx.repo.module(modname)
+        for q, fn in top_funcs(ctx, modname):
+            V = H.fview(ctx, modname, fn)
+            F = he_seq.Forms(V, ctx.repo, m.name)
+            b = F.b
+            # rows of faces: loop variables running over <mesh>.faces, and `<mesh>.faces[i]`
+            rows = set()
+            for lp in [x for x in au.stmts(V.body) if isinstance(x, ast.For)]:
+                L = he_seq.LoopCtx(F, lp.target, lp.iter, lp)
+                rows |= {nm for nm, d in L.names.items() if d[0] == "at" and d[1].endswith(".faces") and d[2] == 0 and not d[3]}
+
+            def is_row(e):
+                if isinstance(e, ast.Name):
+                    if e.id in rows:
+                        return True
+                    d = b.defs.get(e.id) if b.single(e.id) else None
+                    return d is not None and is_row(d)
+                return isinstance(e, ast.Subscript) and not isinstance(e.slice, ast.Slice) and au.chain(e.value) is not None and au.chain(e.value)[-1] == "faces"
+
+            def truncated(e):
+                """source: the first three vertices of a face row  R[:3]"""
+                return isinstance(e, ast.Subscript) and isinstance(e.slice, ast.Slice) and e.slice.step is None and au.const(e.slice.upper) == 3 \
+                    and (e.slice.lower is None or au.const(e.slice.lower) == 0) and is_row(e.value)
+            sources = [x for x in au.walk(V) if truncated(x)]
+            if not sources:
+                continue
+            tainted = set()
+
+            def carries(e):
+                """does the value of e depend on the truncated face through its magnitude?"""
+                if isinstance(e, ast.Call) and au.call_tail(e) in DIRECTION_ONLY:
+                    return False
+                if truncated(e):
+                    return True
+                if isinstance(e, ast.Name):
+                    return e.id in tainted
+                return any(carries(c) for c in ast.iter_child_nodes(e) if isinstance(c, ast.expr) or isinstance(c, (ast.comprehension, ast.keyword, ast.Starred)))
+            for _ in range(6):
+                before = len(tainted)
+                for st in au.stmts(V.body):
+                    if isinstance(st, ast.Assign):
+                        if carries(st.value):
+                            for t in st.targets:
+                                tainted.update(x for x in au.assigned_names(t) if not isinstance(t, (ast.Subscript, ast.Attribute)))
+                    elif isinstance(st, ast.AugAssign) and isinstance(st.target, ast.Name) and carries(st.value):
+                        tainted.add(st.target.id)
+                if len(tainted) == before:
+                    break
+            for st in au.stmts(V.body):
+                tgt = None
+                if isinstance(st, ast.Assign) and len(st.targets) == 1 and isinstance(st.targets[0], ast.Subscript):
+                    tgt, val = st.targets[0], st.value
+                elif isinstance(st, ast.AugAssign) and isinstance(st.target, ast.Subscript):
+                    tgt, val = st.target, st.value
+                if tgt is None:
+                    continue
+                val = _specialise_defaults(val, V)
+                if not carries(val):
+                    continue
+                n += 1
+                tri = gated(ctx.repo, m.name, V, st) or any(
+                    isinstance(r, ast.Compare) and len(r.ops) == 1 and isinstance(r.ops[0], ast.Eq if pol else ast.NotEq) and au.const(r.comparators[0]) == 3
+                    and isinstance(r.left, ast.Call) and au.call_tail(r.left) == "len" for t, pol in H.facts(st, toplevel=True) for r in [b.resolve(t, at=st)])
+                ctx.check(tri, "C07-G2", ctx.site(modname, fn, st),
+                          f"{q}: a quantity computed from the first three vertices of a face (`[:3]`) is stored / accumulated with its magnitude although the faces "
+                          f"are not known to be triangles",
+                          "for a quad or a polygon the cross product of the first two edges measures the triangle of the first three vertices only: its norm is not "
+                          "(twice) the area of the face and it changes when the face is renumbered cyclically; only its direction stands for the face",
+                          note=f"{q}: truncated face used behind a triangular gate")
+    if n == 0:
+        ctx.ok("C07-G2", ctx.site("attributes.attr_faces", "<module>"), "quantities computed from the first three vertices of a face are only used through their direction")
+
+
+# ----------------------------------------------------------------------- C07-Q1
+def _restricting_params(ctx, modname, fn):
+    """parameters of an attribute-building function that restrict the elements its output attribute is filled on (the iterable of the fill
+    loop depends on them)"""
+    V = H.fview(ctx, modname, fn)
+    b = sym.Bindings(V)
+    params = [p for p in au.params(fn) if p not in ("mesh", "self", "name", "persistent", "dense")]
+    outs = {nm for s in au.stmts(V.body) for nm, v in sym.split_assign(s) if any(isinstance(c, ast.Call) and au.call_tail(c) in CTORS for c in ast.walk(v))}
+    found = set()
+    for st in au.stmts(V.body):
+        tgts = [t for t in au.assign_targets(st) if isinstance(t, ast.Subscript) and isinstance(t.value, ast.Name) and t.value.id in outs]
+        if not tgts:
+            continue
+        loops = [a for a in au.ancestors(st) if isinstance(a, ast.For)]
+        if not loops:
+            continue
+        it = b.resolve(loops[-1].iter, at=loops[-1], keep=tuple(params))
+        found |= au.names(it) & set(params)
+    return found
+
+
+def q1_partial_cache(ctx):
+    restricted = {}
+    for modname in ATTR_MODS:
+        for q, fn in top_funcs(ctx, modname):
+            if "persistent" in au.params(fn) and not q.startswith("_"):
+                r = _restricting_params(ctx, modname, fn)
+                if r:
+                    restricted[q] = (modname, fn, r)
+    n = 0
+    for modname in ALL_ATTR:
+        m = ctx.repo.module(modname)
+        for q, fn in top_funcs(ctx, modname):
+            V = H.fview(ctx, modname, fn)
+            for c in au.calls(V):
+                name = au.call_tail(c)
+                if name not in restricted or name == q:
+                    continue
+                r = ctx.repo.resolve_func(m.name, name) if isinstance(c.func, ast.Name) else None
+                cm, cfn, rps = restricted[name]
+                if r is not None and r[1] is not cfn:
+                    continue
+                amap = he_norm.bind_call(cfn, c)
+                if amap is None:
+                    continue
+                supplied = [p for p in rps if p in amap and not (isinstance(amap[p], ast.Constant) and amap[p].value is None)
+                            and not any(amap[p] is d for d in H.param_defaults(cfn).values())]
+                if not supplied:
+                    continue
+                n += 1
+                pers = amap.get("persistent")
+                is_default = pers is None or any(pers is d for d in H.param_defaults(cfn).values())
+                stored = (is_default and bool(getattr(H.param_defaults(cfn).get("persistent"), "value", False))) or (isinstance(pers, ast.Constant) and pers.value is True)
+                if stored:
+                    ctx.fail("C07-Q1", ctx.site(modname, fn, c), f"{q}: `{name}` is asked for a persistent attribute restricted by `{supplied[0]}`: a partially filled "
+                             f"attribute is stored on the mesh under the name later queries reuse",
+                             "every later function that finds the cached attribute (has_attribute / get_attribute) reads the default value for the elements that "
+                             "were left out: sums, means and weights built on it are wrong")
+                elif isinstance(pers, ast.Constant) and pers.value is False:
+                    ctx.ok("C07-Q1", ctx.site(modname, fn, c), f"{q}: restricted `{name}` is not stored on the mesh")
+                else:
+                    ctx.undecided("C07-Q1", ctx.site(modname, fn, c), f"{q}: `{name}` is restricted by `{supplied[0]}` with a `persistent` flag the rule cannot evaluate", "")
+    if n == 0:
+        ctx.ok("C07-Q1", ctx.site(GLOB, "<module>"), "no attribute function is asked for an attribute restricted to a subset of the elements")
 
 
 # ----------------------------------------------------------------------- C07-P1
